@@ -6,10 +6,10 @@
     hand-written specification (Rot/C17Base.v).  Arithmetic is over R: floating-point rounding is outside the model. *)
 From Coq Require Import Reals NArith ZArith List String.
 From SV Require Import Rot.C17Base SM.C17Name SM.C17Rounds SM.C17Subst SM.C17Sites SM.Store SM.StoreProofs SM.StoreCopy
-                       SM.StoreCopyProofs SM.C17Frame
+                       SM.StoreCopyProofs SM.C17Frame SM.C17Global
                        Gen.C17Formulas_gen
                        Rot.C17GeomProofs SM.C17NameProofs SM.C17RoundsProofs SM.C17SubstProofs SM.C17SitesProofs
-                       SM.C17FrameProofs.
+                       SM.C17FrameProofs SM.C17GlobalProofs.
 Import ListNotations.
 (* String is imported for the census names; [length] keeps meaning the length of a list *)
 Local Notation length := List.length (only parsing).
@@ -35,6 +35,13 @@ Definition value_sites_present : bool :=
   name_labels_present g_collapse_sites name_site_labels && labels_present g_collapse_sites plain_site_labels.
 Definition brushes_and_entities_copied : bool :=
   forallb (fun c => existsb (String.eqb c) g_collapse_copied_classes) ["Solid"; "Entity"]%string.
+
+(* every function of instancing.py that mentions a module-level mutable object (collapse_one always), as a skeleton:
+   decisions on such an object guard logging / updates of the object only, nothing else reads it *)
+Definition process_state_only_gates_logging : bool :=
+  forallb (fun f => gates_ok (snd f)) g_process_state_functions.
+Definition collapse_one_skeleton_present : bool :=
+  existsb (fun f => str_eqb (fst f) [99;111;108;108;97;112;115;101;95;111;110;101]%N) g_process_state_functions.
 
 (** *** Positions: the originals rotated by the instance angles, then offset by its origin. *)
 Theorem c17_localise_point : forall p o m, g_vec_localise p o m = place p o m.
@@ -238,6 +245,34 @@ Theorem c17_inplace_writes_are_deep : forall all ws, writes_ok all ws = true ->
   forall cls f, In (cls, f, WInPlace) ws ->
   exists c k, In (cls, c) all /\ In (f, k, HDeep) c /\ field_fresh k HDeep = true.
 Proof. exact inplace_writes_are_deep. Qed.
+
+(** *** Process-global state (module-level mutable objects of instancing.py: the log de-duplication set, the logger)
+    cannot influence a result.  For every control-flow skeleton in which decisions on such an object guard only logging
+    and updates of the object itself ([gates_ok]; kernel-checked for the skeletons generated from today's collapse_one
+    and every other function that mentions such an object), and for EVERY meaning of the statements, conditions, loop
+    counts and exceptions ([sem]): the program state and the way control leaves the function are the same whatever
+    the global state was at entry ... *)
+Theorem c17_result_independent_of_process_state : forall (St G : Type) (m : sem St G) p, gates_ok p = true ->
+  forall s g1 g2, result St G (run St G m p s g1) = result St G (run St G m p s g2).
+Proof. exact noninterference. Qed.
+
+(** ... hence for any history of such calls in one process (first collapse, hundredth collapse, before or after
+    reset_keyvalue_warnings): "collapsing the same file any number of times, in any order". *)
+Theorem c17_collapse_history_independent_of_process_state : forall (St G : Type) (m : sem St G) ps,
+  forallb gates_ok ps = true ->
+  forall s g1 g2, fst (run_many St G m ps s g1) = fst (run_many St G m ps s g2).
+Proof. exact history_independent. Qed.
+
+(** The guard-clause shape `if key in SEEN: continue` in front of the store is rejected, and rightly so: two collapses
+    write one keyvalue instead of two, one collapse depends on what the process did before. *)
+Theorem c17_process_state_gate_refuted :
+  gates_ok shape_guard_clause = false /\ gates_ok shape_log_once = true /\
+  fst (run_many nat bool demo_sem [shape_guard_clause; shape_guard_clause] 0%nat false) = 1%nat /\
+  fst (run_many nat bool demo_sem [shape_log_once; shape_log_once] 0%nat false) = 2%nat /\
+  result nat bool (run nat bool demo_sem shape_guard_clause 0%nat false) <> result nat bool (run nat bool demo_sem shape_guard_clause 0%nat true).
+Proof.
+  split; [exact shape_guard_clause_rejected | split; [exact shape_log_once_ok | exact guard_clause_depends_on_history]].
+Qed.
 
 Local Open Scope nat_scope.
 (** *** collapse_all terminates: at most recur_limit rounds, then RecursionError; success iff the inclusion depth
